@@ -319,10 +319,25 @@ def d3(cx: Cx, ob: Ob) -> None:
             ob.violate(w.qualname, where(w, line), f"sh:pattern is written from `{show(pat)[:40] if pat else 'nothing'}`, not record.pattern", detail="pattern-role")
 
     def classify(p, r, loops):
+        """Which lines a call writes: a list of 'canon' / 'syn' (a loop over [canonical, *synonyms] writes both)."""
         if p == ("attr", r, "prefix"):
-            return "canon"
-        if len(loops) == 2 and _strip_views(loops[1].b) == ("attr", r, "prefix_synonyms") and p == loops[1].a:
-            return "syn"
+            return ["canon"]
+        if len(loops) == 2 and p == loops[1].a:
+            src = _strip_views(loops[1].b)
+            if op(src) == "new" and len(src) > 4 and not ws.mutations_of(src):
+                src = src[4]
+            if src == ("attr", r, "prefix_synonyms"):
+                return ["syn"]
+            if op(src) in ("list", "tuple") and src[1]:
+                out = []
+                for e in src[1]:
+                    if e == ("attr", r, "prefix"):
+                        out.append("canon")
+                    elif e == ("star", ("attr", r, "prefix_synonyms")):
+                        out.append("syn")
+                    else:
+                        return None
+                return out
         return None
 
     seen_calls = set()
@@ -342,8 +357,9 @@ def d3(cx: Cx, ob: Ob) -> None:
             if kind is None:
                 ob.violate(w.qualname, where(w, ev.line), f"SHACL line for `{show(p)[:40]}`: neither canonical prefix nor synonym", detail="key-role")
                 continue
-            ob.site(f"{where(w, ev.line)} {w.qualname}", f"{'canonical' if kind == 'canon' else 'synonym'} line (include_synonyms={flag})")
-            kinds.setdefault(kind, set()).add(flag)
+            for one in kind:
+                ob.site(f"{where(w, ev.line)} {w.qualname}", f"{'canonical' if one == 'canon' else 'synonym'} line (include_synonyms={flag})")
+                kinds.setdefault(one, set()).add(flag)
             roles(c, r, ev.line)
             continue
         # comprehension form: for record in converter.records for prefix in [record.prefix, *synonyms...]
